@@ -315,6 +315,7 @@ def install_alarm():
 
 
 RUN = None
+ROPE_MODE = False    # state-injection harnesses: str * SymInt builds an opaque block of symbolic length
 SEARCH_HOOK = None   # optional override for regex.search on symbolic strings (C13)
 
 
@@ -386,6 +387,8 @@ class SymInt:
         return SymInt.mk(SymInt.lift(o) - s.e)
 
     def __mul__(s, o):
+        if ROPE_MODE and isinstance(o, str) and len(o) == 1:
+            return Rope([Blk(s.e, excl="\n" if o != "\n" else "")])
         if isinstance(o, (str, SymStr, list, tuple)):
             return o * s.concretize()
         return SymInt.mk(s.e * SymInt.lift(o))
